@@ -5,6 +5,7 @@ import (
 	"encoding/json"
 	"fmt"
 	"math"
+	"sort"
 
 	"github.com/gcash/bchd/chaincfg/chainhash"
 	"github.com/gcash/bchd/wire"
@@ -577,13 +578,43 @@ func runC09(c *mc.Ctx) {
 			sizing = append(sizing, c09Sizing{Elements: e, FPName: name})
 		}
 	}
-	c.Space("NewFilter sizing: elements x fprate", int64(len(sizing)))
-	w := c.Worker()
-	for _, s := range sizing {
-		w.State()
-		c09EvalSizing(w, s)
+	// every element count 0..4096, and for every rate the neighbourhoods (+-96) of the two element
+	// counts at which a clamp starts to act: where the unclamped bit count reaches 288000 (the
+	// 36000-byte limit) and where the hash-function count falls to the 50-function limit
+	for name, fp := range c09FPRates {
+		for e := uint32(0); e <= 4096; e++ {
+			sizing = append(sizing, c09Sizing{Elements: e, FPName: name})
+		}
+		r := fp
+		if r > 1 {
+			r = 1
+		}
+		if r < 1e-9 || math.IsNaN(r) {
+			r = 1e-9
+		}
+		per := -1 / (math.Ln2 * math.Ln2) * math.Log(r) // bits per element
+		if per > 0 && !math.IsInf(per, 0) {
+			for _, cross := range []float64{288000 / per, 288000 * math.Ln2 / 50, 288000 * math.Ln2 / 51} {
+				c0 := int64(cross)
+				for d := int64(-96); d <= 96; d++ {
+					if e := c0 + d; e >= 0 && e < 1<<32 {
+						sizing = append(sizing, c09Sizing{Elements: uint32(e), FPName: name})
+					}
+				}
+			}
+		}
 	}
-	w.Done()
+	c.Space("NewFilter sizing: elements x fprate (boundary values, every count to 4096, neighbourhoods of the clamp crossings)", int64(len(sizing)))
+	sort.Slice(sizing, func(i, j int) bool {
+		if sizing[i].FPName != sizing[j].FPName {
+			return sizing[i].FPName < sizing[j].FPName
+		}
+		return sizing[i].Elements < sizing[j].Elements
+	})
+	c.ParFor(int64(len(sizing)), func(w *mc.W, i int64) {
+		w.State()
+		c09EvalSizing(w, sizing[i])
+	})
 }
 
 func c09SelfTest() {
